@@ -62,6 +62,14 @@ impl LocalMetadataClient {
     const NANOS_PER_HOUR: i64 = 3_600_000_000_000;
 }
 
+#[cfg(feature = "verif_hooks")]
+impl LocalMetadataClient {
+    /// Compaction level of a chunk (verification harness only).
+    pub fn verif_chunk_level(&self, path: &str) -> Option<u32> {
+        self.chunk_levels.get(path).map(|l| *l)
+    }
+}
+
 impl Default for LocalMetadataClient {
     fn default() -> Self {
         Self::new()
